@@ -10,7 +10,10 @@ package checks
 
 import (
 	"fmt"
+	"sync"
+	"sync/atomic"
 	"testing"
+	"time"
 
 	"github.com/absfs/absnfs"
 	"pgregory.net/rapid"
@@ -273,3 +276,138 @@ func runC08(tb stat.TB, c c08Case) {
 var propC08 = defProp("C08", "TestC08", genC08, runC08)
 
 func TestC08(t *testing.T) { propC08.Test(t) }
+
+// ---- read-only switched on while a mutating request is inside the backend
+
+type c08DCase struct {
+	Proc         string `json:"proc"` // mkdir create remove rmdir rename symlink write setattr
+	ShortTimeout bool   `json:"short_timeout"`
+	Via          string `json:"via"`
+	WaitMs       int    `json:"wait_ms"`
+}
+
+func genC08D(t *rapid.T) c08DCase {
+	return c08DCase{Proc: pick(t, "proc", "mkdir", "create", "remove", "rmdir", "rename", "symlink", "write", "setattr"), ShortTimeout: rapid.Bool().Draw(t, "short"),
+		Via: pick(t, "via", "policy", "export"), WaitMs: pick(t, "wait", 0, 5, 60, 120)}
+}
+
+func runC08D(tb stat.TB, c c08DCase) {
+	const id, check = "C08", "TestC08Drain"
+	v := vfs.New()
+	v.SeedFile("/f", 0644, 0, 0, []byte("precious"))
+	v.SeedDir("/d2", 0755, 0, 0)
+	to := 5 * time.Second
+	if c.ShortTimeout {
+		to = 40 * time.Millisecond
+	}
+	s := newSession(tb, v, absnfs.ExportOptions{AttrCacheTimeout: 1, AttrCacheSize: 4, Timeouts: drv.FastTimeouts(to)})
+	defer s.close()
+	s.tolerateMalformed = true
+	root := s.mount()
+	fr := s.nfs(nfsx.ProcLookup, nfsx.ArgsDirop(root, "f"))
+	if fr.Status != nfsx.OK {
+		tb.Fatalf("harness: lookup f")
+	}
+	gate := make(chan struct{})
+	parked := make(chan struct{})
+	var once sync.Once
+	var roInForce atomic.Bool
+	var late []string
+	var mu sync.Mutex
+	v.SetBefore(func(call *vfs.Call) {
+		if !call.Mutating {
+			return
+		}
+		once.Do(func() { close(parked) })
+		<-gate
+		if roInForce.Load() {
+			mu.Lock()
+			late = append(late, call.String())
+			mu.Unlock()
+		}
+	})
+	done := make(chan struct{})
+	go func() {
+		defer close(done)
+		var proc uint32
+		var args []byte
+		switch c.Proc {
+		case "mkdir":
+			proc, args = nfsx.ProcMkdir, nfsx.ArgsMkdir(root, "newdir", nfsx.Sattr{})
+		case "create":
+			proc, args = nfsx.ProcCreate, nfsx.ArgsCreate(root, "newfile", nfsx.Unchecked, nfsx.Sattr{}, [8]byte{})
+		case "remove":
+			proc, args = nfsx.ProcRemove, nfsx.ArgsDirop(root, "f")
+		case "rmdir":
+			proc, args = nfsx.ProcRmdir, nfsx.ArgsDirop(root, "d2")
+		case "rename":
+			proc, args = nfsx.ProcRename, nfsx.ArgsRename(root, "f", root, "g")
+		case "symlink":
+			proc, args = nfsx.ProcSymlink, nfsx.ArgsSymlink(root, "lnk", nfsx.Sattr{}, "f")
+		case "write":
+			proc, args = nfsx.ProcWrite, nfsx.ArgsWrite(fr.Fh, 0, 4, nfsx.FileSync, []byte("OVER"))
+		case "setattr":
+			proc, args = nfsx.ProcSetattr, nfsx.ArgsSetattr(fr.Fh, nfsx.Sattr{Size: nfsx.U64p(0)}, nil)
+		}
+		xid := s.e.NextXid()
+		s.e.CallWire(drv.Root(), nfsx.Call(xid, nfsx.ProgNFS, 3, proc, drv.Root().Cred, nfsx.AuthNone(), args))
+	}()
+	select {
+	case <-parked:
+	case <-done:
+		stat.Discard(false)
+		close(gate)
+		return
+	case <-time.After(10 * time.Second):
+		close(gate)
+		tb.Fatalf("harness: request neither parked nor returned")
+	}
+	if c.ShortTimeout {
+		select {
+		case <-done: // HandleCall gave up; the backend call is still parked
+		case <-time.After(3 * time.Second):
+		}
+	}
+	upd := make(chan error, 1)
+	go func() {
+		var err error
+		if c.Via == "policy" {
+			err = s.e.NFS.UpdatePolicyOptions(absnfs.PolicyOptions{ReadOnly: true})
+		} else {
+			o := s.e.NFS.GetExportOptions()
+			o.ReadOnly = true
+			err = s.e.NFS.UpdateExportOptions(o)
+		}
+		roInForce.Store(true)
+		upd <- err
+	}()
+	select {
+	case err := <-upd:
+		upd <- err
+	case <-time.After(time.Duration(c.WaitMs) * time.Millisecond):
+	}
+	close(gate)
+	select {
+	case err := <-upd:
+		if err != nil {
+			tb.Fatalf("harness: update failed: %v", err)
+		}
+	case <-time.After(20 * time.Second):
+		stat.Violate(tb, id, check, "read-only-switch-never-returns", c, "the update to read-only did not return within 20 s after the in-flight request was released")
+		return
+	}
+	<-done
+	time.Sleep(2 * time.Millisecond)
+	v.SetBefore(nil)
+	mu.Lock()
+	defer mu.Unlock()
+	if len(late) > 0 {
+		stat.Violate(tb, id, check, "modifying-backend-call-after-read-only-switch-returned", c, "%s request admitted read-write: the switch to read-only returned while it was still inside the backend, and it then issued %s", c.Proc, late[0])
+		return
+	}
+	stat.Case(c, true)
+}
+
+var propC08D = defProp("C08", "TestC08Drain", genC08D, runC08D)
+
+func TestC08Drain(t *testing.T) { propC08D.Test(t) }
